@@ -322,7 +322,7 @@ for kind, mk in (('v4', IPv4), ('v6', IPv6)):
         a = planted[kind][k %% len(planted[kind])]
         k += 1
         cut = len(a) - 1                       # the last character falls behind the boundary
-        fill = b - cut - n - 1
+        fill = b - cut - n                    # the address starts at b - cut: exactly its last character lies behind b
         if fill < 2:
             continue
         line = ('lorem ipsum ' * (fill // 12 + 1))[:fill - 1] + ' '
